@@ -425,6 +425,83 @@ def is_ne_one(flag, b):
     return False
 
 
+def field_sqrt_rule(rep, cfg):
+    """Field::sqrt / sqrt_in_place of the three fields.  Inherited from arkworks (today's tree): the generic Tonelli-Shanks / 3-mod-4 routine on
+    SQRT_PRECOMP - trusted code on constants that the CONST rule checks.  Overridden in the crate: the override is interpreted with the square-root-of-
+    ratio routine replaced by its CONTRACT (zero cases included) and must (a) map 0 to Some(0) and (b) return, when it returns Some(y), a y with
+    y^2 = self as a polynomial identity modulo the contract's relation v^2 * den = num."""
+    n = 0
+    for im in cfg.facts["impls"]:
+        if im.get("trait_def") != "ark_ff::Field":
+            continue
+        m = re.search(r"fields::(fq|fr|fp)::u64::wrapper", im.get("self", ""))
+        if not m:
+            continue
+        f = m.group(1)
+        inh = im.get("inherited") or []
+        for meth in ("sqrt", "sqrt_in_place"):
+            n += 1
+            key = "SQRT/%s/%s::%s" % (cfg.name, f, meth)
+            if meth in inh:
+                rep.ob(key, True, "inherited arkworks default on SQRT_PRECOMP (constants decided by the CONST rule)", nontrivial=False)
+                continue
+            path = next((it["path"] for it in im["items"] if it["name"] == meth), None)
+            if path is None or cfg.prog.body(path) is None:
+                rep.ob(key, False, "overriding body not found")
+                continue
+            z, one = felem(f, 0), felem(f, 1)
+
+            def contract(ctx):
+                a = ctx.args
+                return Tm.ite(Tm.eq(a[0], z), mk("tuple", TRUE, z),
+                              Tm.ite(Tm.eq(a[1], z), mk("tuple", FALSE, z), mk("tuple", mk("isqrt_sq", a[0], a[1]), mk("isqrt_v", a[0], a[1]))))
+            loc = {p_: contract for p_ in cfg.prog.bodies if p_.endswith("::sqrt_ratio_zeta") or p_.endswith("::non_arkworks_sqrt_ratio_zeta")}
+            from . import engine as E_, summaries as S_
+            I = E_.Interp(cfg.prog, S_.Summaries(local=loc), {})
+            out0 = I.run(path, args=[z])
+            v0 = out0.value if meth == "sqrt" else None
+            ok0 = meth != "sqrt" or v0 is variant("Some", z)
+            # general shape
+            out = cfg.run(path, local=loc)
+            bad = []
+            if meth == "sqrt":
+                for pc, v in C.expand_flows(out.flows):
+                    pc, v = C.under_pc(pc, v)        # simplify the value (and later conditions) under the path condition
+                    if v.op == "variant" and v.args[0] == "Some":
+                        flags = [c for c in pc if c.op == "isqrt_sq"]
+                        N = cfg.norm
+                        y, x = v.args[1], mk("param", "self")
+                        rel_ok = False
+                        if any(c_ is Tm.eq(x, z) or c_ is Tm.eq(z, x) for c_ in pc):
+                            rel_ok = not N.poly(Tm.subst(y, {x: z}))          # self = 0 on this flow: the root of 0 is 0
+                        for fl in flags:
+                            num, den = fl.args
+                            vv = N.poly(mk("isqrt_v", num, den))
+                            (vm, _), = vv.items()
+                            vid = vm[0][0]
+                            P_ = N.add(N.mul(N.poly(y), N.poly(y)), N.poly(x), -1)
+                            A_, B_, C_ = {}, {}, {}
+                            for mono, c in P_.items():
+                                d_ = dict(mono)
+                                e = d_.pop(vid, 0)
+                                rest = tuple(sorted(d_.items()))
+                                tgt = A_ if e == 2 else (B_ if e == 1 else (C_ if e == 0 else None))
+                                if tgt is None:
+                                    B_[("deg", e)] = 1
+                                    continue
+                                tgt[rest] = (tgt.get(rest, 0) + c) % N.p
+                            # y^2 - x = A v^2 + B v + C  ==  (A*num + C*den)/den  modulo v^2*den = num   (den != 0 on this flow)
+                            lhs = N.add(N.mul(A_, N.poly(num)), N.mul(C_, N.poly(den)))
+                            if not B_ and not lhs:
+                                rel_ok = True
+                        if not rel_ok:
+                            bad.append("Some(%s) is not a root of self modulo the contract" % Tm.show(y, maxdepth=4))
+            rep.ob(key, ok0 and not bad and not out.unmodelled,
+                   "overriding %s must map 0 to Some(0) (got %s) and return roots of self: %s" % (meth, Tm.show(v0, maxdepth=3) if v0 is not None else "-", "; ".join(bad) or "ok"),
+                   where=cfg.where(path))
+    return n
+
+
 def run(rep, facts, tier):
     rep.explanation = (
         "Only the structural necessary conditions of the contract are decided (see DESIGN.md, C09 is largely not applicable to static analysis): the zero cases as "
@@ -449,6 +526,7 @@ def run(rep, facts, tier):
             tables_rule(rep, cfg)
             statics.check_statics(rep, f, name)
             legendre_rule(rep, cfg)
+            rep.floor("field_sqrt_forms", field_sqrt_rule(rep, cfg), 6)
         else:
             min_rules(rep, cfg)
     # field constants the square roots rely on (shared with C17)
